@@ -77,7 +77,22 @@ def _decode(payload):
     return json.loads(json.loads('"' + payload + '"'))
 
 
-def run(
+def run(module, cfg, workers=16, **kw):
+    """run_once, retried single-threaded when TLC itself crashes with several workers.
+
+    TLC normalises shared constant values lazily and in place; with many workers this
+    occasionally races ("TLC threw an unexpected exception ... Attempted to check equality
+    of string with non-string").  One worker cannot race."""
+    try:
+        return run_once(module, cfg, workers=workers, **kw)
+    except TLCError as exc:
+        if workers > 1 and "TLC threw an unexpected exception" in str(exc):
+            print("note: TLC crashed internally with %d workers; retrying with 1 worker" % workers)
+            return run_once(module, cfg, workers=1, **kw)
+        raise
+
+
+def run_once(
     module,
     cfg,
     workers=16,
